@@ -359,7 +359,14 @@ class SchemaValidator:
                 )
             )
 
-        for param in remaining[3:]:
+        # Anything besides the 3 expected positional parameters must be
+        # optional: extra positional parameters and all keyword only ones
+        # (which can follow a variable positional parameter).
+        extra = remaining_positional[3:] + [
+            p for p in remaining if p.kind is Parameter.KEYWORD_ONLY
+        ]
+
+        for param in extra:
             if param.default is Parameter.empty:
                 self.add_error(
                     'Required resolver parameter "%s" on "%s" does not match '
